@@ -56,6 +56,8 @@ func main() {
 		os.Exit(cmdManifest())
 	case "inventory":
 		os.Exit(cmdInventory())
+	case "anchors":
+		os.Exit(cmdAnchors())
 	default:
 		fmt.Fprintln(os.Stderr, "unknown command", os.Args[1])
 		os.Exit(2)
